@@ -1,6 +1,7 @@
 package main
 
 import (
+	"bytes"
 	"errors"
 	"io"
 	"math/rand"
@@ -103,6 +104,28 @@ func mkLink(impl string, cfg WCfg, drw *dialect.ReadWriter, sink io.Writer) (lw 
 			return nil, false, false
 		}
 		return swLink{sw}, true, false
+	}
+	if impl == "readwriter" || impl == "newreadwriter" {
+		// frame.ReadWriter is a third way to get a message writer (its reader half idles on an empty input)
+		brw := struct {
+			io.Reader
+			io.Writer
+		}{bytes.NewReader(nil), sink}
+		var rw *frame.ReadWriter
+		var err error
+		if impl == "readwriter" {
+			rw = &frame.ReadWriter{ByteReadWriter: brw, DialectRW: drw, OutVersion: frame.WriterOutVersion(cfg.V),
+				OutSystemID: byte(cfg.Sys), OutComponentID: byte(cfg.Comp), OutSignatureLinkID: byte(cfg.Link), OutKey: keyOf(cfg.Key)}
+			err = rw.Initialize()
+		} else {
+			rw, err = frame.NewReadWriter(frame.ReadWriterConf{ //nolint:staticcheck
+				ReadWriter: brw, DialectRW: drw, OutVersion: frame.WriterOutVersion(cfg.V),
+				OutSystemID: byte(cfg.Sys), OutComponentID: byte(cfg.Comp), OutSignatureLinkID: byte(cfg.Link), OutKey: keyOf(cfg.Key)})
+		}
+		if err != nil {
+			return nil, false, false
+		}
+		return fwLink{rw.Writer}, true, false
 	}
 	fw := &frame.Writer{ByteWriter: sink, DialectRW: drw, OutVersion: frame.WriterOutVersion(cfg.V),
 		OutSystemID: byte(cfg.Sys), OutComponentID: byte(cfg.Comp), OutSignatureLinkID: byte(cfg.Link), OutKey: keyOf(cfg.Key)}
@@ -277,10 +300,13 @@ func cmdWLink(o opts) {
 		for l := 0; l < links; l++ {
 			v := 1 + l%2
 			cfg := WCfg{V: v, Sys: 1 + r.Intn(255), Comp: []int{0, 1, 7, 255}[r.Intn(4)], Key: B{}, Link: 0}
-			impl := []string{"streamwriter", "framewriter"}[(l/2)%2]
+			impl := []string{"streamwriter", "framewriter", "streamwriter", "readwriter"}[l%4]
+			if thorough {
+				impl = []string{"streamwriter", "framewriter", "readwriter", "newreadwriter"}[(l/2)%4]
+			}
 			tag, items := "long", []witem(nil)
 			if l%8 == 5 || (!thorough && l == 3) { // a short keyed link: signatures cost the monitor SHA-256 per frame
-				cfg.V, cfg.Key, cfg.Link = 2, key1, r.Intn(256)
+				cfg.V, cfg.Key, cfg.Link = 2, key1, 1+r.Intn(255)
 				tag, items = "keyed", genItems(60, 2, true)
 			} else {
 				items = genItems(n, v, l%4 != 0)
@@ -335,11 +361,14 @@ func cmdWLink(o opts) {
 			links = 2
 		}
 		for l := 0; l < links; l++ {
-			cfg := WCfg{V: 2, Sys: 1 + r.Intn(255), Comp: r.Intn(256), Key: rbytes(r, 32), Link: r.Intn(256)}
+			cfg := WCfg{V: 2, Sys: 1 + r.Intn(255), Comp: r.Intn(256), Key: rbytes(r, 32), Link: 1 + r.Intn(255)}
+			if l%4 == 1 && l > 4 {
+				cfg.Link = 0
+			}
 			if l == 0 {
 				cfg.Key = make(B, 32)
 			}
-			impl := []string{"streamwriter", "framewriter"}[l%2]
+			impl := []string{"streamwriter", "framewriter", "readwriter", "newreadwriter"}[l%4]
 			items := genItems(n, 2, false)
 			if mode == "c07" {
 				// timestamps only: tiny messages so the SHA work per frame stays at two blocks
